@@ -293,6 +293,11 @@ def run(ctx):
         zr["early_data_bulk/%s" % nm] = {"ops": {"c": [W(0, 3000, g="pre"), W(4, 10, True, g="pre"), W(0, 500, True)]},
                                          "cfg": dict(extra, tickets="obtain")}
     netcheck.explore_scenarios(ctx, "c01", zr, 1, "early_data_d1", sig_extra=sig_extra)
+    # every pair of configuration options on one standard exchange, each datagram dropped once
+    from vlib import cfgpairs
+
+    netcheck.explore_scenarios(ctx, "c01", cfgpairs.scenarios(ctx.seed, dev=("drop",) if quick else ("drop", "delay")),
+                               1, "config_pairs_d1", sig_extra=sig_extra)
     netcheck.explore_scenarios(ctx, "c01", small, 2 if quick else 3, "small_windows", sig_extra=sig_extra)
     if not quick:
         cl = closure_scripts(2)
